@@ -15,6 +15,7 @@ global size_of usize == 8;
 //@@EXTRACT enum traits/src/data.rs GarnishDataType
 //@@EXTRACT enum traits/src/instructions.rs Instruction
 //@@EXTRACT enum data/src/data/number.rs SimpleNumber derive=Clone,Copy
+//@@EXTRACT enum traits/src/data.rs SymbolListPart derive=none
 
 // DataError (data/src/error.rs): external type; message text and backtrace dropped
 #[verifier::external_body]
